@@ -192,8 +192,11 @@ class ModelModifier:
     # buffer offsets.
 
     # remove all the constant from the model.
+    # A zero-length constant stays inline: with nothing to append, its final
+    # size field (0) would be dropped from the flatbuffer and shift every offset
+    # computed from the placeholder pass.
     for buffer in quantized_model.buffers:
-      if buffer.data is not None:
+      if buffer.data is not None and len(buffer.data):
         buffer.data = None
         buffer.offset = 1
         buffer.size = 1
@@ -205,7 +208,7 @@ class ModelModifier:
       dummy_bytearray += b'\0'
     for buffer_idx, buffer in enumerate(quantized_model.buffers):
       buffer_data = self._constant_map[buffer_idx]
-      if buffer_data is None:
+      if buffer_data is None or not len(buffer_data):
         continue
       buffer.offset = len(dummy_bytearray)
       buffer.size = len(buffer_data)
@@ -222,7 +225,7 @@ class ModelModifier:
       model_bytearray += b'\0'
     for buffer_idx, _ in enumerate(quantized_model.buffers):
       buffer_data = self._constant_map[buffer_idx]
-      if buffer_data is None:
+      if buffer_data is None or not len(buffer_data):
         continue
       model_bytearray += buffer_data
       while len(model_bytearray) % 16:
